@@ -26,6 +26,8 @@ pub mod half_space;
 pub mod integrals;
 mod voronoi_cell;
 mod voronoi_face;
+#[cfg(any(kani, meshless_voro_verif))]
+pub mod verif_hooks;
 
 /// The dimensionality of the Voronoi tessellation.
 #[derive(
